@@ -217,3 +217,129 @@ func (t *errTracker) edge(pred, succ *ssa.BasicBlock, ev uint64) bool {
 	saysNil := (succ == pred.Succs[0]) == nilWhen
 	return !(saysNil && ev&b != 0)
 }
+
+// errPathState: what is known, along one path, about values that hold a particular non-nil error.
+type errPathState struct {
+	nn    map[ssa.Value]bool  // SSA values known to be that (non-nil) error
+	cells map[*ssa.Alloc]bool // local variables currently holding it
+}
+
+func (s *errPathState) clone() *errPathState {
+	c := &errPathState{nn: map[ssa.Value]bool{}, cells: map[*ssa.Alloc]bool{}}
+	for k := range s.nn {
+		c.nn[k] = true
+	}
+	for k := range s.cells {
+		c.cells[k] = true
+	}
+	return c
+}
+
+func (s *errPathState) holds(v ssa.Value) bool {
+	if s.nn[v] {
+		return true
+	}
+	if u, ok := v.(*ssa.UnOp); ok && u.Op == token.MUL {
+		if cell := cellOf(u.X); cell != nil && s.cells[cell] {
+			return true
+		}
+	}
+	return false
+}
+
+// enter: the path goes from pred into b — phis take the value of that edge.
+func (s *errPathState) enter(pred, b *ssa.BasicBlock) {
+	idx := -1
+	for i, p := range b.Preds {
+		if p == pred {
+			idx = i
+		}
+	}
+	if idx < 0 {
+		return
+	}
+	for _, in := range b.Instrs {
+		ph, ok := in.(*ssa.Phi)
+		if !ok {
+			break
+		}
+		if s.holds(ph.Edges[idx]) {
+			s.nn[ph] = true
+		} else {
+			delete(s.nn, ph)
+		}
+	}
+}
+
+// step: the effect of one instruction (stores into local error variables).
+func (s *errPathState) step(in ssa.Instruction) {
+	if st, ok := in.(*ssa.Store); ok {
+		if cell := cellOf(st.Addr); cell != nil {
+			if s.holds(st.Val) {
+				s.cells[cell] = true
+			} else {
+				delete(s.cells, cell)
+			}
+		}
+	}
+}
+
+// branch: which successors of b the path can take (an `x != nil` / `x == nil` test of a value that
+// holds the error is decided).
+func (s *errPathState) branch(b *ssa.BasicBlock) []*ssa.BasicBlock {
+	iff, ok := b.Instrs[len(b.Instrs)-1].(*ssa.If)
+	if !ok || len(b.Succs) != 2 {
+		return b.Succs
+	}
+	if x, nilWhen, ok := errNilTest(iff.Cond); ok && s.holds(x) {
+		if nilWhen {
+			return b.Succs[1:2]
+		}
+		return b.Succs[0:1]
+	}
+	return b.Succs
+}
+
+// maySucceedAfterError: starting in block start (entered from pred) with e known to be a non-nil error,
+// can a return be reached whose error result may be nil? Tests of variables that hold e are decided,
+// everything else is followed both ways. Returns such a return, or nil.
+func maySucceedAfterError(start, pred *ssa.BasicBlock, e ssa.Value) *ssa.Return {
+	type key struct {
+		b    *ssa.BasicBlock
+		held bool
+	}
+	seen := map[key]bool{}
+	var walk func(b, from *ssa.BasicBlock, st *errPathState, depth int) *ssa.Return
+	walk = func(b, from *ssa.BasicBlock, st *errPathState, depth int) *ssa.Return {
+		if depth > 200 {
+			return nil
+		}
+		st = st.clone()
+		if from != nil {
+			st.enter(from, b)
+		}
+		k := key{b, len(st.nn)+len(st.cells) > 1}
+		if seen[k] {
+			return nil
+		}
+		seen[k] = true
+		for _, in := range b.Instrs {
+			st.step(in)
+			if ret, ok := in.(*ssa.Return); ok {
+				v, ns := errorOfReturn(ret)
+				if ns == nonNil || (v != nil && st.holds(v)) {
+					return nil
+				}
+				return ret
+			}
+		}
+		for _, sx := range st.branch(b) {
+			if r := walk(sx, b, st, depth+1); r != nil {
+				return r
+			}
+		}
+		return nil
+	}
+	st := &errPathState{nn: map[ssa.Value]bool{e: true}, cells: map[*ssa.Alloc]bool{}}
+	return walk(start, pred, st, 0)
+}
